@@ -24,6 +24,7 @@ inductive Op
   | injectrst (src : Ep) (dst : Ep)
   | drain
   | netstat
+  | pumpn (n : Nat)
 deriving Repr, Inhabited
 
 /-- slot kind: 'u' udp, 'l' listener, 's' stream -/
@@ -311,6 +312,12 @@ def step (w : World) : Op → World × String × List String
             acc.2.2 ++ [if wild then "udpwild" else "udpexact"] ++ (if conn then ["udpconnected"] else [])))
       (w, [], [])
     (w', joinTok parts " ", cov)
+  | .pumpn n =>
+    -- n rounds of: egress on every host, hand every packet to the fabric (time passing on an idle wire)
+    let (f, seen) := (List.range n).foldl (fun (acc : Fabric × List Pkt) _ =>
+      let (f, out) := acc.1.egressAll
+      (out.foldl (fun f p => f.deliver p) f, acc.2 ++ out)) (w.fab, [])
+    ({ w with fab := f }, "ok wire=" ++ wireTok seen, ["pumpn"] ++ (if n ≥ 18 then ["synrecvtimeout"] else []))
   | .netstat =>
     let parts := (w.fab.hosts.zipIdx).filterMap fun (k, i) =>
       if k.addrs.isEmpty then none
